@@ -169,6 +169,7 @@ fn c15_small_ssg_encode() {
 
 //@ id: small_ssg_decode
 //@ prop: C15
+//@ tier: thorough
 //@ functions: insim/src/insim/small.rs <SmallType as BinRead>::read_options; insim/src/insim/small.rs <SmallType as BinWrite>::write_options
 //@ statement: IS_SMALL sub-type 2 (Ssg), for ALL 2^32 value fields: decoding gives value*10 ms and re-encoding gives the identical 5 bytes
 //@ covers: 1
@@ -192,6 +193,7 @@ fn c15_small_stp_encode() {
 
 //@ id: small_stp_decode
 //@ prop: C15
+//@ tier: thorough
 //@ functions: insim/src/insim/small.rs <SmallType as BinRead>::read_options; insim/src/insim/small.rs <SmallType as BinWrite>::write_options
 //@ statement: IS_SMALL sub-type 5 (Stp), for ALL 2^32 value fields: decoding gives value*10 ms and re-encoding gives the identical 5 bytes
 //@ covers: 1
@@ -215,6 +217,7 @@ fn c15_small_rtp_encode() {
 
 //@ id: small_rtp_decode
 //@ prop: C15
+//@ tier: thorough
 //@ functions: insim/src/insim/small.rs <SmallType as BinRead>::read_options; insim/src/insim/small.rs <SmallType as BinWrite>::write_options
 //@ statement: IS_SMALL sub-type 6 (Rtp), for ALL 2^32 value fields: decoding gives value*10 ms and re-encoding gives the identical 5 bytes
 //@ covers: 1
